@@ -310,13 +310,29 @@ pub fn check(hdr: &str, lines: &[String], trace: &[(String, Vec<String>)], mon: 
                 // DISABLE_UNSOLICITED handled during the wait cancels the series (no callback tells)
                 outstanding_unsol.clear();
             }
-            if f.len() >= 2 && (f[1] == 20 || f[1] == 21) && f[0] & 0xF0 == 0xC0 && unsolicited && processed {
+            if f.len() >= 2 && (f[1] == 20 || f[1] == 21) && f[0] & 0xF0 == 0xC0 && unsolicited && processed && !(repeat_request && unicast) {
                 let objs = &f[2..];
                 if objs.len() % 3 == 0 && objs.chunks(3).all(|c| c[0] == 0x3c && c[2] == 0x06) {
                     // a byte-identical repeat is echoed, not executed — but executing it again is idempotent
                     // a request retained by an aborted confirm wait is processed AFTER the idle pass that
                     // may already have started an unsolicited response in this same op
-                    let deferred_effect = outs.iter().any(|o| o.starts_with("cb sol_new_request")) && outs.iter().any(|o| o.starts_with("cb unsol_wait"));
+                    let txb: Vec<Vec<u8>> = outs.iter().filter(|o| o.starts_with("tx ")).map(|o| unhex(o.split_whitespace().nth(2).unwrap_or("-"))).collect();
+                    let first_uns = txb.iter().position(|b| b.len() >= 2 && b[1] == 0x82);
+                    let first_reply = txb.iter().position(|b| b.len() >= 2 && b[1] == 0x81 && (b[0] & 0x0F) == (f[0] & 0x0F));
+                    let deferred_effect = outs.iter().any(|o| o.starts_with("cb sol_new_request"))
+                        && match (first_uns, first_reply) {
+                            (Some(u), Some(r)) => u < r,
+                            (Some(_), None) => {
+                                // broadcast: no reply; the callbacks keep their order
+                                let pb = outs.iter().position(|o| o.starts_with("cb broadcast"));
+                                let pu = outs.iter().position(|o| o.starts_with("cb unsol_wait"));
+                                match (pb, pu) {
+                                    (Some(b), Some(u)) => u < b,
+                                    _ => false,
+                                }
+                            }
+                            _ => false,
+                        };
                     for c in objs.chunks(3) {
                         if (2..=4).contains(&c[1]) {
                             if deferred_effect {
@@ -478,7 +494,9 @@ pub fn check(hdr: &str, lines: &[String], trace: &[(String, Vec<String>)], mon: 
             let fresh = true;
             if fresh {
                 let mut want = [false; 3];
-                let mut want_alt = [false; 3];
+                // D4 family: events written into an earlier response that was never confirmed stay
+                // `Written` until some later reset, and are not counted as available meanwhile
+                let mut stale_written = [false; 3];
                 for e in &ledger {
                     if e.released || e.discarded || !(1..=3).contains(&e.class) {
                         continue;
@@ -486,18 +504,17 @@ pub fn check(hdr: &str, lines: &[String], trace: &[(String, Vec<String>)], mon: 
                     let c = (e.class - 1) as usize;
                     if !carried.contains(&e.id) && !outstanding_unsol.contains(&e.id) && !outstanding_sol.contains(&e.id) {
                         want[c] = true;
-                    }
-                    // events still marked as written by an earlier response that was never confirmed nor
-                    // reset are not counted by the implementation (D4 family): alternative reading
-                    let written_elsewhere = txs.iter().any(|t| t.carried.contains(&e.id));
-                    if !carried.contains(&e.id) && !written_elsewhere {
-                        want_alt[c] = true;
+                        if txs.iter().any(|t| t.carried.contains(&e.id)) {
+                            stale_written[c] = true;
+                        }
                     }
                 }
                 let got = [b[2] & 0x02 != 0, b[2] & 0x04 != 0, b[2] & 0x08 != 0];
                 let is_echo = false;
                 if !is_echo && got != want {
-                    let cause = if got == want_alt { "D4" } else if d3_possible { "D3" } else { "" };
+                    let extra = (0..3).any(|c| got[c] && !want[c]);
+                    let missing_explained = (0..3).all(|c| !(want[c] && !got[c]) || stale_written[c]);
+                    let cause = if !extra && missing_explained { "D4" } else if d3_possible { "D3" } else { "" };
                     // stored-header echoes are filtered by the caller through `resend` below
                     if !sent.contains(&b) && !repeat_request {
                         fail(mon, hdr, "class_bits_exact", cause, &format!("op {k}: {} class bits got {:?} want {:?}", hex(&b[..4]), got, want));
